@@ -32,7 +32,7 @@ CHECK = {
         "gen": gen, "nontrivial": nontrivial, "classify": classify,
         "exhaustive": {"quick": False, "thorough": False},
         "timeout": {"quick": 100, "thorough": 1500},
-        "rule": ("real Server<HashMapTreeCatalog>: 4..12 threads calling handle_message (NS+glue, NXDOMAIN+SOA, A, TXT queries; two thirds "
+        "rule": ("real Server<HashMapTreeCatalog>: 4..12 threads calling handle_message[every fourth key generation is the EMPTY key set; after the last swap: install a key -> verified, revoke all -> BADKEY]  (NS+glue, NXDOMAIN+SOA, A, TXT queries; two thirds "
                  "TSIG-signed with the key of a random generation) while another thread calls set_catalog / set_tsig_keys through 8..120 "
                  "(thorough: ..1000) generations whose every record / key name carries the generation; a SeqCst sequence counter brackets "
                  "every call; each response must be byte-identical to the single-threaded reference response of ONE catalog generation "
